@@ -60,6 +60,9 @@ CHECKS['C01'] = dict(
          'operand_must_be_wrapped is the witness of the defect repaired in /repo 7e8458c); the model on generic trees is tied to the real pass on whole '
          'function bodies (~40 per run) and linked to the core-language model by pass_models_agree; semantics validated against CPython with the real '
          'ag__.ld / ag__.Undefined (~440 runs). '
+         '(6) the default control-flow operators (operators/control_flow.py if_stmt / while_stmt / for_stmt and their _py_ implementations, translated '
+         'on every run) are proved to follow the protocol of the native statements for every callback record (control_operators_correct: '
+         'test before every fetch for loops with a lowered break), tied to the real operators by logged runs (~160 per run). '
          'The end-to-end claim (13 passes + loader) is validated, not proved: a differential oracle runs original vs '
          'malt.to_graph(original) on seeded generated programs x decision vectors x option sets (recursive on/off, feature sets) and '
          'compares return value, ordered external-call log, exception type, mutated arguments and module globals.',
